@@ -53,6 +53,19 @@ Proof.
   - intros q'. cbn. unfold upd. destruct (Nat.eqb_spec q' q); subst; cbn; apply O.
 Qed.
 
+(* the subscription gauges are read by no invariant but the metrics one (BrokerMetrics.M) *)
+Lemma set_g_subs_good v s : Good s -> Good (set_g_subs v s).
+Proof.
+  intros ((I & R & L) & O). destruct I as [I1 I2 I3 I4 I5 I6 I7 I8]. destruct R as [R1 R2]. destruct L as [L1 L2 L3].
+  split; [split; [|split]|].
+  - constructor; cbn; auto.
+  - constructor; cbn; auto.
+  - constructor; cbn; auto.
+  - exact O.
+Qed.
+Lemma regauge_good q i s : Good s -> Good (regauge q i s).
+Proof. apply set_g_subs_good. Qed.
+
 Definition kgood (k : state -> res) : Prop := forall s, Good s -> Good (st (k s)).
 
 Lemma authenticate_good k q i dg l s :
@@ -64,7 +77,7 @@ Proof.
   - destruct (bytes_eqb (sha1 (nonce (conns s q) ++ r_secret r)) dg) eqn:E; [|cbn; apply bad_good; exact G].
     apply bytes_eqb_eq in E.
     match goal with |- context [k ?X] => assert (G1 : Good X) end.
-    { apply auth_set_good; auto. }
+    { apply auth_set_good; auto. apply regauge_good. exact G. }
     match goal with |- context [k ?X] => specialize (Hk X G1); destruct (k X) eqn:EK end; cbn in *.
     + destruct (pending _); [apply resume_r_good|]; exact Hk.
     + exact Hk.
